@@ -70,7 +70,23 @@ def main():
         if bool(bad) != want_fail or len(runs) < 4:
             print("sched explorer selftest failed: buggy=%s runs=%d bad=%d" % (buggy, len(runs), len(bad)))
             return 2
-    print("selftest ok: sxvm conforms (%d path signatures), exact-domain poison, boundary harvesting, schedule explorer" % len(sigs))
+    # thread-interleaving explorer: a routine that parks a value in a shared place and reads it back is caught with one preemption,
+    # a routine that keeps it local is not; the same schedule replays to the same observation
+    from . import threads, _selftest_threads as tt
+    for shared, want_fail in ((False, False), (True, True)):
+        fns = [lambda: tt.work(3, shared), lambda: tt.work(5, shared)]
+        alone = [f() for f in fns]
+        runs = list(threads.explore(fns, ("_selftest_threads.py",), 1))
+        bad = [r for r in runs if [x[1] for x in r[1]] != alone]
+        if bool(bad) != want_fail or len(runs) < 4:
+            print("thread explorer selftest failed: shared=%s runs=%d bad=%d" % (shared, len(runs), len(bad)))
+            return 2
+        if bad:
+            again = threads.run(fns, ("_selftest_threads.py",), bad[0][0])[0]
+            if again != bad[0][1]:
+                print("thread explorer selftest failed: a schedule did not replay to the same observation")
+                return 2
+    print("selftest ok: sxvm conforms (%d path signatures), exact-domain poison, boundary harvesting, schedule explorer, thread explorer" % len(sigs))
     return 0
 
 
